@@ -36,10 +36,14 @@ RawCases == {[dec |-> "ecdsa-pk-raw", len |-> l, val |-> "-", cbit |-> 1, ibit |
 Prefixes == {"02", "03", "00", "01", "04", "05", "06", "07", "ff"}
 CompBodies == {"valid", "xgep", "not-on-curve"}
 CompCases == {[dec |-> "ecdsa-pk-comp", len |-> l, val |-> p, cbit |-> 1, ibit |-> 0, sbit |-> 0, body |-> b] : l \in {0, 32, 33, 34, 65}, p \in Prefixes, b \in CompBodies}
+        \* a VALID encoding of the point in another X9.62 form (uncompressed 04||X||Y, hybrid 06/07||X||Y), 65 bytes: not a compressed key
+        \cup {[dec |-> "ecdsa-pk-comp", len |-> 65, val |-> p, cbit |-> 1, ibit |-> 0, sbit |-> 0, body |-> "valid-xy"] : p \in {"04", "06", "07"}}
+        \* and the raw decoder handed a compressed or prefixed encoding
+RawOther == {[dec |-> "ecdsa-pk-raw", len |-> l, val |-> "-", cbit |-> 1, ibit |-> 0, sbit |-> 0, body |-> b] : l \in {33, 65}, b \in {"compressed-form", "prefixed-04"}}
 
 Cases == SkCases("bls-sk", {0, 1, 31, 32, 33, 64}, 32) \cup SkCases("ecdsa-sk", {0, 1, 31, 32, 33, 64}, 32)
     \cup PointCases("bls-pk", 96, {0, 48, 95, 96, 97, 192}) \cup PointCases("bls-sig", 48, {0, 47, 48, 49, 96})
-    \cup RawCases \cup CompCases
+    \cup RawCases \cup CompCases \cup RawOther
 
 VARIABLES c, pc, verdict
 vars == <<c, pc, verdict>>
